@@ -11,7 +11,10 @@ NAMES = ["alpha", "beta", "gamma", "delta", "client", "db", "tmp_thing", "é_fix
 PLAIN_NAMES = ["alpha", "beta", "gamma", "delta", "client", "db", "cls"]    # `cls` is an ordinary fixture name unless the function is a classmethod
 ANNOTATIONS = ["int", "str", "t.Iterator[int]", "Generator[int, None, None]", "int | None", '"Forward"',
                "Optional[Dict[str, int]]", "list[str]", "t.Any", "Iterator[Tuple[int, str]]", "None", "Callable[..., int]"]
-STR_FORMS = ['"{0}"', "'{0}'", '"""{0}"""', 'r"{0}"', '"{0}" ""', "'''{0}'''"]
+STR_FORMS = ['"{0}"', "'{0}'", '"""{0}"""', 'r"{0}"', '"{0}" ""', "'''{0}'''",
+             # a prefix letter that is also a word, a literal continued on the next line (the value is the
+             # name: backslash-newline is a continuation), the name in the second of two concatenated tokens
+             'u"{0}"', '"""\\\n{0}"""', '"" "{0}"']
 YIELD_WRAPS = ["plain", "if", "for", "while", "with", "asyncwith", "asyncfor", "try", "except", "else", "finally",
                "assign", "nestedfn", "return_paren", "if_else_only", "for_else", "while_else", "yield_from", "elif"]
 
